@@ -1737,7 +1737,17 @@ func (t *tScreen) parseRune(buf *bytes.Buffer, evs *[]Event) (bool, bool) {
 				// a C1 control (e.g. an 8-bit CSI), not text
 				return false, false
 			}
-			if r != utf8.RuneError {
+			valid := r != utf8.RuneError
+			if !valid {
+				// U+FFFD is also what the decoder emits for garbage; it was
+				// really typed only if it encodes back to the bytes read
+				enc := make([]byte, 12)
+				t.encoder.Reset()
+				if n, _, e := t.encoder.Transform(enc, utf[:nOut], true); e == nil && bytes.Equal(enc[:n], b[:nIn]) {
+					valid = true
+				}
+			}
+			if valid {
 				mod := ModNone
 				if t.escaped {
 					mod = ModAlt
